@@ -3,15 +3,16 @@ package world
 import (
 )
 
-type Renter struct{}
 
 
 
 func (w *World) setupExtras() { w.setupLights() }
 
-func (w *World) actExtra(wl *Wallet, n *Node, v1ok, v2ok bool) []*PoolTxn { return nil }
+func (w *World) actExtra(wl *Wallet, n *Node, v1ok, v2ok bool) []*PoolTxn {
+	return w.actContracts(wl, n, v1ok, v2ok)
+}
 
-func (w *World) workloadRejected(pt *PoolTxn, err error) {}
+
 
 
 
